@@ -1,6 +1,6 @@
 """C19 — Monte-Carlo pricers are reproducible and unbiased for the payoff they document.
 
-Theorems (FinVerif/Props/C19a,b,c,d.lean) about the hand model FinVerif/Model/C19.lean: purity / history independence of
+Theorems (FinVerif/Props/C19a,b,c,d,e.lean) about the hand model FinVerif/Model/C19.lean: purity / history independence of
 seeded routines, the exact GBM step (shape, flow, terminal value for every n, antithetic pair product), antithetic
 symmetry estimate(z) = estimate(-z), pairing identities of the Vasicek / CIR / Heston steps, the default-time map as the
 inverse of the survival curve, and (Mathlib gaussianReal) the one-step martingale property and conditional means.
@@ -28,7 +28,7 @@ import exedriver    # noqa: E402
 from floatcmp import f2b, b2f  # noqa: E402
 
 GEN = []
-PROPS = ['FinVerif.Props.C19a', 'FinVerif.Props.C19b', 'FinVerif.Props.C19c', 'FinVerif.Props.C19d']
+PROPS = ['FinVerif.Props.C19a', 'FinVerif.Props.C19b', 'FinVerif.Props.C19c', 'FinVerif.Props.C19d', 'FinVerif.Props.C19e']
 DRIVERS = ['FinVerif.Driver.C19']
 
 RULE = ('correspondence: for each modelled kernel, cases (parameters, seed, path/step counts) drawn from VERIF_SEED; the '
@@ -297,7 +297,7 @@ def _run(ctx, drivers_ok, bseeds, procs):
         'sample sizes are chosen so the normal approximation of pair means is adequate',
     ]
     return C.finish(ctx, 'proof',
-                    'lake build FinVerif.Props.C19a FinVerif.Props.C19b FinVerif.Props.C19c FinVerif.Props.C19d && lake env lean .cache/audit/Audit_C19.lean',
+                    'lake build FinVerif.Props.C19a FinVerif.Props.C19b FinVerif.Props.C19c FinVerif.Props.C19d FinVerif.Props.C19e && lake env lean .cache/audit/Audit_C19.lean',
                     C.TRUSTED_BASE_COMMON + ['hand-written model FinVerif/Model/C19.lean + C19F.lean, tied to the compiled kernels by '
                                              'the draw-for-draw correspondence of this run (NumPy regenerates the draws)',
                                              'Spec/C19.lean: exact GBM transition, Euler conditional mean, flat-hazard survival '
